@@ -77,7 +77,11 @@ type lateOp struct {
 	// callerArg: the operation changes an argument object of a *compile option*; a later Compile
 	// that is given the same (now different) argument legitimately compiles something else
 	callerArg bool
-	do        func() (runFn, error)
+	// nestedCompile: Compile (standalone) of a graph / chain / workflow that is a node of the scenario's
+	// top-level graph: like a Compile of the top-level builder it changes nothing, and on builders nothing
+	// else has touched it must succeed
+	nestedCompile bool
+	do            func() (runFn, error)
 }
 
 func (o lateOp) String() string { return o.Name + "(" + o.Detail + ")" }
@@ -118,6 +122,24 @@ type optKit struct {
 	after  []string // WithInterruptAfterNodes argument
 	opts   map[string][]compose.GraphCompileOption
 	cbs    []compose.GraphCompileCallback
+	// every Compile of the top-level builder also carries a compile callback that keeps the *GraphInfo it
+	// is given (that is what compile callbacks are for: exporting the structure to a tool)
+	infos []*compose.GraphInfo
+	// nested: the scenario has graphs as nodes (late operations on their GraphInfo are offered too)
+	nested bool
+}
+
+func (k *optKit) depths() []bool {
+	if k.nested {
+		return []bool{false, true}
+	}
+	return []bool{false}
+}
+
+type keepInfoCallback struct{ k *optKit }
+
+func (c keepInfoCallback) OnFinish(ctx context.Context, info *compose.GraphInfo) {
+	c.k.infos = append(c.k.infos, info)
 }
 
 type nopCompileCallback struct{ n *int }
@@ -136,7 +158,163 @@ func newOptKit(beforeNode, afterNode string) *optKit {
 	k.opts["cb"] = []compose.GraphCompileOption{compose.WithGraphCompileCallbacks(k.cbs...)}
 	k.opts["ib"] = []compose.GraphCompileOption{compose.WithInterruptBeforeNodes(k.before), compose.WithCheckPointStore(&memStore{m: map[string][]byte{}})}
 	k.opts["ia"] = []compose.GraphCompileOption{compose.WithCheckPointStore(&memStore{m: map[string][]byte{}}), compose.WithInterruptAfterNodes(k.after)}
+	for _, v := range mon.SortedKeys(k.opts) {
+		k.opts[v] = append(k.opts[v], compose.WithGraphCompileCallbacks(keepInfoCallback{k}))
+	}
 	return k
+}
+
+// eachInfo applies f to every *GraphInfo kept so far: those handed to the compile callback (nested=false)
+// or those of the graphs that are nodes, at any depth, reached through GraphNodeInfo.GraphInfo (nested=true).
+func (k *optKit) eachInfo(nested bool, f func(gi *compose.GraphInfo)) {
+	seen := map[*compose.GraphInfo]bool{}
+	var walk func(gi *compose.GraphInfo, depth int)
+	walk = func(gi *compose.GraphInfo, depth int) {
+		if gi == nil || seen[gi] || depth > 4 {
+			return
+		}
+		seen[gi] = true
+		// children first: f may empty the Nodes map
+		for _, key := range mon.SortedKeys(gi.Nodes) {
+			walk(gi.Nodes[key].GraphInfo, depth+1)
+		}
+		if nested == (depth > 0) {
+			f(gi)
+		}
+	}
+	for _, gi := range k.infos {
+		walk(gi, 0)
+	}
+}
+
+// infoLates: everything a holder of the *GraphInfo can write to - the Edges / DataEdges / Branches / Nodes
+// maps, the slices in them, the slices inside the node infos - on the info of the compiled graph itself and
+// on the infos of the graphs nested in it. The GraphInfo describes the compiled graph; it is not the graph.
+func (k *optKit) infoLates() []lateOp {
+	var ls []lateOp
+	edgeOps := func(field string, get func(gi *compose.GraphInfo) map[string][]string) {
+		for _, nested := range k.depths() {
+			nested := nested
+			name := "GraphInfo." + field
+			if nested {
+				name = "nested " + name
+			}
+			for _, val := range []string{compose.END, "zz"} {
+				val := val
+				ls = append(ls, voidOp(name+"-slice", "every element := "+val, func() {
+					k.eachInfo(nested, func(gi *compose.GraphInfo) {
+						m := get(gi)
+						for _, key := range mon.SortedKeys(m) {
+							for i := range m[key] {
+								m[key][i] = val
+							}
+						}
+					})
+				}))
+			}
+			ls = append(ls, voidOp(name+"-slice", "every list: first element := its last element, then append(list[:0], zz)", func() {
+				k.eachInfo(nested, func(gi *compose.GraphInfo) {
+					m := get(gi)
+					for _, key := range mon.SortedKeys(m) {
+						if l := m[key]; len(l) > 0 {
+							l[0] = l[len(l)-1]
+							m[key] = append(l[:0], "zz")
+						}
+					}
+				})
+			}))
+			ls = append(ls, voidOp(name+"-map", "every entry deleted, entry zz added", func() {
+				k.eachInfo(nested, func(gi *compose.GraphInfo) {
+					m := get(gi)
+					for _, key := range mon.SortedKeys(m) {
+						delete(m, key)
+					}
+					m["zz"] = []string{compose.END}
+				})
+			}))
+		}
+	}
+	edgeOps("Edges", func(gi *compose.GraphInfo) map[string][]string { return gi.Edges })
+	edgeOps("DataEdges", func(gi *compose.GraphInfo) map[string][]string { return gi.DataEdges })
+	for _, nested := range k.depths() {
+		nested := nested
+		pre := "GraphInfo."
+		if nested {
+			pre = "nested GraphInfo."
+		}
+		ls = append(ls,
+			voidOp(pre+"Branches", "GetEndNode() of every branch emptied, zz added", func() {
+				k.eachInfo(nested, func(gi *compose.GraphInfo) {
+					for _, key := range mon.SortedKeys(gi.Branches) {
+						for i := range gi.Branches[key] {
+							ends := gi.Branches[key][i].GetEndNode()
+							for _, e := range mon.SortedKeys(ends) {
+								delete(ends, e)
+							}
+							if ends != nil {
+								ends["zz"] = true
+							}
+						}
+					}
+				})
+			}),
+			voidOp(pre+"Branches", "every branch := GraphBranch{}, every entry deleted", func() {
+				k.eachInfo(nested, func(gi *compose.GraphInfo) {
+					for _, key := range mon.SortedKeys(gi.Branches) {
+						for i := range gi.Branches[key] {
+							gi.Branches[key][i] = compose.GraphBranch{}
+						}
+						delete(gi.Branches, key)
+					}
+				})
+			}),
+			voidOp(pre+"Nodes.Mappings-slice", "every element := ToField(Z)", func() {
+				k.eachInfo(nested, func(gi *compose.GraphInfo) {
+					for _, key := range mon.SortedKeys(gi.Nodes) {
+						ms := gi.Nodes[key].Mappings
+						for i := range ms {
+							ms[i] = compose.ToField("Z")
+						}
+					}
+				})
+			}),
+			voidOp(pre+"Nodes.GraphAddNodeOpts-slice", "every element := WithOutputKey(late)", func() {
+				k.eachInfo(nested, func(gi *compose.GraphInfo) {
+					for _, key := range mon.SortedKeys(gi.Nodes) {
+						os := gi.Nodes[key].GraphAddNodeOpts
+						for i := range os {
+							os[i] = compose.WithOutputKey("late")
+						}
+					}
+				})
+			}),
+			voidOp(pre+"Nodes-map", "every entry := GraphNodeInfo{}, then deleted", func() {
+				k.eachInfo(nested, func(gi *compose.GraphInfo) {
+					for _, key := range mon.SortedKeys(gi.Nodes) {
+						gi.Nodes[key] = compose.GraphNodeInfo{}
+						delete(gi.Nodes, key)
+					}
+				})
+			}),
+			voidOp(pre+"NewGraphOptions-slice", "every element := WithGenLocalState(other state)", func() {
+				k.eachInfo(nested, func(gi *compose.GraphInfo) {
+					for i := range gi.NewGraphOptions {
+						gi.NewGraphOptions[i] = compose.WithGenLocalState(func(ctx context.Context) *ostate { return &ostate{} })
+					}
+				})
+			}),
+			// (the option slice may be the very slice the caller passed to Compile / WithGraphCompileOptions)
+			lateOp{Name: pre + "CompileOptions-slice", Detail: "every element := WithGraphName(late)", callerArg: true, do: func() (runFn, error) {
+				k.eachInfo(nested, func(gi *compose.GraphInfo) {
+					for i := range gi.CompileOptions {
+						gi.CompileOptions[i] = compose.WithGraphName("late")
+					}
+				})
+				return nil, nil
+			}},
+		)
+	}
+	return ls
 }
 
 func (k *optKit) get(v string) []compose.GraphCompileOption { return k.opts[v] }
@@ -159,7 +337,7 @@ func (k *optKit) lates(otherNode string) []lateOp {
 		}
 	})
 	set("compile-callbacks-slice", "cbs[0]=other", func() { k.cbs[0] = nopCompileCallback{new(int)} })
-	return ls
+	return append(ls, k.infoLates()...)
 }
 
 func compileLates(sc *scenario, compile func(v string) (runFn, error)) []lateOp {
@@ -473,6 +651,7 @@ func init() {
 			sub := smallGraph("sub")
 			wf := compose.NewWorkflow[string, string]()
 			kit := newOptKit("g", "w")
+			kit.nested = true
 			w := wf.AddGraphNode("w", inner).AddInput(compose.START)
 			g := wf.AddGraphNode("g", sub).AddInput("w")
 			end := wf.End().AddInput("g")
@@ -502,11 +681,11 @@ func init() {
 			}
 			b.lates = append(b.lates, workflowLates("", wf, []string{"w", "g"}, "k")...)
 			b.lates = append(b.lates,
-				lateOp{Name: "nested Workflow.Compile", Detail: "no options", do: func() (runFn, error) {
+				lateOp{Name: "nested Workflow.Compile", Detail: "no options", nestedCompile: true, do: func() (runFn, error) {
 					_, err := inner.Compile(context.Background())
 					return nil, err
 				}},
-				lateOp{Name: "nested Graph.Compile", Detail: "WithMaxRunSteps", do: func() (runFn, error) {
+				lateOp{Name: "nested Graph.Compile", Detail: "WithMaxRunSteps", nestedCompile: true, do: func() (runFn, error) {
 					_, err := sub.Compile(context.Background(), compose.WithMaxRunSteps(3))
 					return nil, err
 				}},
@@ -594,6 +773,7 @@ func init() {
 
 			g := compose.NewGraph[string, string]()
 			kit := newOptKit("t", "s")
+			kit.nested = true
 			_ = g.AddGraphNode("s", sub, compose.WithGraphCompileOptions(subOpts...))
 			_ = g.AddGraphNode("t", subc)
 			_ = g.AddGraphNode("u", inner)
@@ -617,19 +797,19 @@ func init() {
 			b.lates = append(b.lates, handleLates("inner workflow: ", whandle{"c", func() *compose.WorkflowNode { return ic }}, []string{compose.START}, []string{"X", "Z"})...)
 			b.lates = append(b.lates, workflowLates("nested ", inner, []string{"c"}, "Z")...)
 			b.lates = append(b.lates,
-				lateOp{Name: "nested Graph.Compile", Detail: "no options", do: func() (runFn, error) {
+				lateOp{Name: "nested Graph.Compile", Detail: "no options", nestedCompile: true, do: func() (runFn, error) {
 					_, err := sub.Compile(context.Background())
 					return nil, err
 				}},
-				lateOp{Name: "nested Graph.Compile", Detail: "AllPredecessor", do: func() (runFn, error) {
+				lateOp{Name: "nested Graph.Compile", Detail: "AllPredecessor", nestedCompile: true, do: func() (runFn, error) {
 					_, err := sub.Compile(context.Background(), compose.WithNodeTriggerMode(compose.AllPredecessor))
 					return nil, err
 				}},
-				lateOp{Name: "nested Chain.Compile", Detail: "no options", do: func() (runFn, error) {
+				lateOp{Name: "nested Chain.Compile", Detail: "no options", nestedCompile: true, do: func() (runFn, error) {
 					_, err := subc.Compile(context.Background())
 					return nil, err
 				}},
-				lateOp{Name: "nested Workflow.Compile", Detail: "no options", do: func() (runFn, error) {
+				lateOp{Name: "nested Workflow.Compile", Detail: "no options", nestedCompile: true, do: func() (runFn, error) {
 					_, err := inner.Compile(context.Background())
 					return nil, err
 				}},
@@ -651,6 +831,7 @@ func init() {
 			sp := &sc
 			c := compose.NewChain[string, string]()
 			kit := newOptKit([]string{"join", "head"}[shape], []string{"head", "join"}[shape])
+			kit.nested = shape == 1
 			sub := smallGraph("pg")
 			p := compose.NewParallel().AddLambda("k0", mkLambda("s", "k0")).AddLambda("k1", mkLambda("s", "k1"))
 			if shape == 1 {
@@ -688,6 +869,7 @@ func init() {
 			sp := &sc
 			c := compose.NewChain[string, string]()
 			kit := newOptKit("tail", "head")
+			kit.nested = true
 			subc := compose.NewChain[string, string]().AppendLambda(mkLambda("s", "n0")).AppendLambda(mkLambda("s", "n1"))
 			cb := compose.NewChainBranch(func(ctx context.Context, in string) (string, error) {
 				return "b" + strconv.Itoa(len(in)%3), nil
@@ -706,7 +888,7 @@ func init() {
 			b.lates = append(b.lates, chainLates("Chain", c)...)
 			b.lates = append(b.lates, chainBranchLates("ChainBranch", cb, c, "b0")...)
 			b.lates = append(b.lates, chainLates("nested Chain", subc)...)
-			b.lates = append(b.lates, lateOp{Name: "nested Chain.Compile", Detail: "no options", do: func() (runFn, error) {
+			b.lates = append(b.lates, lateOp{Name: "nested Chain.Compile", Detail: "no options", nestedCompile: true, do: func() (runFn, error) {
 				_, err := subc.Compile(context.Background())
 				return nil, err
 			}})
@@ -929,6 +1111,9 @@ func (c *checker) checkLate(s lateSeq) {
 	case "recompiled-differs":
 		sig = "C20/recompiled-runnable-differs/" + sc.fe
 		what = "Compile of an untouched, already compiled builder with run-time equivalent options gives a runnable that behaves differently from the first one"
+	case "recompile-fails":
+		sig = "C20/compile-not-repeatable/" + sc.fe + "/" + strings.ReplaceAll(res.name, " ", "-") + "-of-untouched-builder-fails"
+		what = "after a successful Compile and nothing but further Compile calls (of the builder itself, of the builders that are its nodes), Compile returned an error"
 	case "modified":
 		sig = "C20/builder-modified-after-compile/" + sc.fe + "/" + res.name
 		what = "after operations on retained objects, Compile with run-time equivalent options succeeds and gives a runnable that behaves differently from the first one: the compiled graph was modified"
@@ -986,6 +1171,7 @@ func (c *checker) runLate(s lateSeq, count bool) (*lateResult, *lateWitnessX) {
 	}
 	callerArg := false
 	mutated := false
+	touched := false // something else than Compile calls (of the top-level builder or of a nested one) happened
 	for pos, i := range s.idx {
 		op := b.lates[i]
 		var r2 runFn
@@ -1012,6 +1198,20 @@ func (c *checker) runLate(s lateSeq, count bool) (*lateResult, *lateWitnessX) {
 		if ch, why := im.changed(c); ch {
 			w.name = op.Name
 			return &lateResult{class: "changed", at: pos, name: op.Name, detail: why, recompile: op.compile != ""}, w
+		}
+		// Compile does not change what was built: as long as nothing but Compile calls happened, a Compile
+		// of the top-level builder with the options of its first Compile, and the standalone Compile of a
+		// builder that is a node of it, must succeed
+		if !touched && e != nil && (op.nestedCompile || op.compile == initV.name) {
+			w.name = op.Name
+			return &lateResult{class: "recompile-fails", at: pos, name: op.Name,
+				detail: fmt.Sprintf("%s returned an error: %s", op, firstLine(e.Error()))}, w
+		}
+		if !touched && count && (op.nestedCompile || op.compile == initV.name) {
+			rep.Count("late_compile_of_untouched_builders_succeeded", 1)
+		}
+		if op.compile == "" && !op.nestedCompile {
+			touched = true
 		}
 		switch {
 		case op.compile == "":
